@@ -14,11 +14,13 @@ MANIFEST = {
             "code_size() = end of the last section = largest end = code_size() before the call; flatten refuses exactly when "
             "the ideal layout does not fit 64 bits and code_size() saturates exactly then; copy_flattened_data / "
             "copy_section_data never write outside the destination, refuse exactly the destinations that are too small, and "
-            "produce byte for byte the specified image for all four flag combinations; the first relocation never increases "
-            "code_size(). The model is tied to the real code by running harness and Lean driver on the same operation lines; "
+            "produce byte for byte the specified image for all four flag combinations; the first relocation of any built "
+            "program (directly or after flatten, any base) never increases code_size(); the copy loop of JitRuntime::_add "
+            "(sections in id order) installs exactly the copy_flattened_data image of the relocated state and never leaves "
+            "the span. The model is tied to the real code by running harness and Lean driver on the same operation lines; "
             "the Lean monitors (the predicates of the theorems) judge every answer of the real code.",
     "note": "Trusted: Lean kernel; Spec/Sections.lean as the meaning of layout/image; harness/driver/diff. The model follows the "
-            "repaired code (fixes/C10-1..3.patch). Modelled: new_section, ensure/add address table, x86 call/jmp-abs emission, "
+            "repaired code (fixes/C10-1..4.patch). Modelled: new_section, ensure/add address table, x86 call/jmp-abs emission, "
             "flatten, code_size, copy_section_data, copy_flattened_data, JitRuntime::_add copy loop, kX64AddressEntry path and "
             "tail of relocate_to_base. Only tested (correspondence): byte patching of relocations, JitRuntime::_add end to end. "
             "Not modelled: malloc/realloc of code buffers, other relocation types, a second relocate_to_base on the same holder.",
@@ -349,7 +351,9 @@ def run(res):
         "the by-id and by-order vectors of CodeHolder share Section objects: one list in the model",
         "malloc/realloc of code buffers never fails in the explored runs (capacity is invisible)",
         "relocate_to_base is run at most once per CodeHolder (a second run re-counts address-table slots from zero: outside the property)",
-        "model follows the repaired code: fixes/C10-1.patch (flatten), C10-2.patch (code_size), C10-3.patch (section name terminator)",
+        "model follows the repaired code: fixes/C10-1.patch (flatten), C10-2.patch (code_size), C10-3.patch (section name terminator), "
+        "C10-4.patch (JitRuntime::_add refuses an empty final image instead of shrinking the span to 0 bytes)",
+        "estimate_ge_final is proved for build histories (no set_virtual_size on .addrtab itself, < 2^60 operations) relocated once",
         "harness built with -fno-sanitize=nonnull-attribute (copy_flattened_data calls memcpy(dst, nullptr, 0) for buffer-less sections)",
     ]
     broken = []
@@ -364,7 +368,7 @@ def run(res):
     h = vlib.build_harness("c10")
 
     ncfg = 1500 if res.tier == "quick" else 25000
-    cfgs = [WITNESS_17, WITNESS_CS, WITNESS_NAME] + small_exhaustive(None if res.tier == "thorough" else 120) + [gen_config(rng) for _ in range(ncfg)]
+    cfgs = [WITNESS_17, WITNESS_CS, WITNESS_NAME, WITNESS_JIT0] + small_exhaustive(None if res.tier == "thorough" else 120) + [gen_config(rng) for _ in range(ncfg)]
     with ThreadPoolExecutor(4) as ex:
         cfgs = [c for part in ex.map(lambda p: expand_all(p, h), chunks(cfgs, 4)) for c in part]
 
@@ -451,6 +455,7 @@ def run(res):
 WITNESS_17 = ["init", "data 0 90", "sec .a 16 0", "sec .b 16 0", "data 2 cc", "flatten", "copy 17 3", "flatten", "copy 17 3"]
 WITNESS_CS = ["init", "data 0 90", "sec .a 1 0", "vsize 1 fffffffffffffff6", "sec .b 16 0", "data 2 cc", "flatten"]
 WITNESS_NAME = ["init", "sec .a 16 0", "sec bb 1 0", "names", "find .a", "find bb", "find b"]
+WITNESS_JIT0 = ["init", "addr 1234", "jitadd"]
 
 
 def replay(data):
